@@ -7,9 +7,9 @@ PROP = dict(
     ],
     bounds=("first byte and length constant per harness, extension-field type/length words constant, everything else symbolic (header, field contents, MAC bytes, "
             "synchronisation state, clock readings). NTPv3/v4 plain: 48 B and 48+{4,20,24} B MAC, response kinds time / DENY (deny list, allow list, NTS required). "
-            "NTPv4 templates up to 120 B: unique id 36 B (alone, +20 B MAC, twice), cookie + unknown field outside NTS, unique id 16 B + 12 B MAC "
+            "NTPv4 templates up to 120 B: unique id 36 B (alone, +20 B MAC, twice), unique id 16 B + 12 B MAC "
             "(answer re-encoded to the RFC 7822 minimum fits exactly). Policy concrete per harness (one response kind each)."),
-    outside=("NTPv5 answers (c16_wire_v5_*: time answer with draft identification + padding does not finish: 7 GB after 10 min; harnesses kept, not registered); answers "
+    outside=("requests with two fields of which the first is not echoed (c16_wire_v4_unknown_uid_time, c16_wire_v4_cookie_ph_time: 15 min cap hit; kept, not registered); NTPv5 answers (c16_wire_v5_*: time answer with draft identification + padding does not finish: 7 GB after 10 min; harnesses kept, not registered); answers "
              "that do NOT fit the request-sized buffer (c16_wire_v4_uid16_mac9_time: any serialisation failure drags symex through the drop glue of "
              "std::io::Error / Box<dyn Error>: out of memory at 8 GB; by construction nothing can be sent then: the cursor is bounded by the slice); undecryptable NTS "
              "requests (see C15); requests longer than 120 B and other field combinations; NTS requests with valid cookies / placeholders (size of fresh cookies: C17-C19 harnesses of "
@@ -40,7 +40,6 @@ PROP = dict(
         H(NS, "c16", "c16_wire_v4_uid36_deny", "NTPv4 + unique id: DENY echoes it", tier="thorough"),
         H(NS, "c16", "c16_wire_v4_uid36_mac20_time", "NTPv4 + unique id + 20 B MAC", tier="thorough"),
         H(NS, "c16", "c16_wire_v4_uid36x2_time", "NTPv4 + two unique ids (120 B)", tier="thorough"),
-        H(NS, "c16", "c16_wire_v4_cookie_ph_time", "NTPv4 + cookie + unknown field outside NTS", tier="thorough"),
         H(NS, "c22", "c22_any_v3_53_55", "NTPv3 53/54/55 B", tier="thorough"),
     ],
 )
